@@ -169,7 +169,7 @@ theorem firstChild_disj (s : Sep r f) {h l : Nat} (hn : h ∉ handles r) (hl : f
     obtain ⟨k, hk, rfl⟩ := hl
     have hx : k ∈ t0.kids := (List.dropWhile_sublist _).mem (List.mem_of_head? hk)
     intro har
-    exact s.get?_disj hn hg _ har (kids_handles_sub t0 k hx _ (handle_mem_handles k))
+    exact s.get?_disj hn hg _ har (kids_handles_sub t0 k hx _ (fc_handle_mem_handles k))
 
 theorem prependPoint_disj (s : Sep r f) {h l : Nat} (hn : h ∉ handles r) (hl : f.prependPoint h = some l) :
     l ∉ handles r := by
@@ -182,7 +182,7 @@ theorem prependPoint_disj (s : Sep r f) {h l : Nat} (hn : h ∉ handles r) (hl :
     obtain ⟨k, hk, rfl⟩ := hl
     have hx : k ∈ t0.kids := (List.takeWhile_sublist _).mem (List.mem_of_getLast? hk)
     intro har
-    exact s.get?_disj hn hg _ har (kids_handles_sub t0 k hx _ (handle_mem_handles k))
+    exact s.get?_disj hn hg _ har (kids_handles_sub t0 k hx _ (fc_handle_mem_handles k))
 
 theorem tail_ok {f3 : Forest} {b3 : Bool} (s3 : Sep r f3) :
     Sep r (if b3 = true then (f3, Res.ok) else (f3, Res.err XotError.nodeError)).1 := by
